@@ -611,7 +611,7 @@ class Hdf5Storage(Storage):
         f = h5py.File(filename, mode=mode)
         if subgroup is not None:
             if subgroup in f:
-                f = subgroup[f]
+                f = f[subgroup]
             else:
                 f = f.create_group(subgroup)
         res = cls(f)
@@ -646,6 +646,7 @@ class Hdf5Storage(Storage):
         if name in self.h5gr:
             raise ValueError('Subcontainer with that name already exists')
         res = Hdf5Storage(self.h5gr.create_group(name))
+        self._subcontainers.append(res)
         return res
 
     def load(self, key):
@@ -656,6 +657,8 @@ class Hdf5Storage(Storage):
     def save(self, key, value):
         if not self._opened:
             raise ValueError('Trying to access closed storage')
+        if key in self.h5gr:
+            del self.h5gr[key]  # overwrite like the other storage classes
         save_to_hdf5(self.h5gr, value, key)
 
     def delete(self, key):
